@@ -500,7 +500,10 @@ class Grid:
                 )
                 metric_vars = self.interp_like(mv, array, "extend", None)
         else:
-            for axis_combinations in iterate_axis_combinations(axes):
+            # go through the combinations in the order of the grid's axes, so that the choice
+            # among several possible products does not depend on how the axes were listed
+            axes_in_grid_order = [ax for ax in self.axes if ax in axes]
+            for axis_combinations in iterate_axis_combinations(axes_in_grid_order):
                 try:
                     # will raise KeyError if the axis combination is not in metrics
                     possible_metric_vars = [
